@@ -11,7 +11,9 @@ RULE = (
     "grid: every (max, min) pair of G x G inside the domain, G = {0} u {+-2^k, +-2^k+-1 : k=0..64} "
     "u {c, c+-1 : c an integer constant of the current fit_dtype code object}, plus the one-argument "
     "form for every negative g; interior: Hypothesis integers over the same domain. Oracle: numpy.iinfo "
-    "only. Non-trivial = mixed-sign pair (min < 0 < max); distinct by (max, min)."
+    "only. Non-trivial = mixed-sign pair (min < 0 < max); distinct by (max, min). dense_output: the same oracle applied "
+    "to the dtype iindex.to_array() selects by default for generated value sets (the INDX coordinate word is pinned "
+    "byte-for-byte by C11)."
 )
 ASSUMPTIONS = [
     "domain: -2^63 <= min <= 0, min <= max, max <= 2^63-1 when min < 0 else max < 2^64 "
@@ -159,7 +161,46 @@ def interior(tier):
     return st.builds(build, big, big, st.integers(0, 3))
 
 
+def dense_cases(tier):
+    big = st.one_of(
+        st.integers(-(2 ** 63), 2 ** 63 - 1),
+        st.integers(0, 63).flatmap(lambda k: st.integers(-3, 3).map(lambda d: 2 ** k + d)),
+        st.integers(0, 63).flatmap(lambda k: st.integers(-3, 3).map(lambda d: -(2 ** k) + d)),
+        st.integers(-300, 300),
+    )
+    return st.builds(lambda vals, common, two_d: {"values": vals, "common": common, "two_d": two_d},
+                     st.lists(big, min_size=1, max_size=4), big, st.booleans())
+
+
+def check_dense(case, rec):
+    """The dtype to_array() picks by default holds every value and is the narrowest of its signedness."""
+    import numpy
+
+    from .. import cubes as Q
+
+    vals = [max(-(2 ** 63), min(2 ** 63 - 1, v)) for v in case["values"]]
+    common = max(-(2 ** 63), min(2 ** 63 - 1, case["common"]))
+    dense = numpy.array(vals, dtype=numpy.int64)
+    if case["two_d"]:
+        dense = dense.reshape(-1, 1)
+    ix = Q.build_index(dense, common)
+    with libcall("to_array()"):
+        out = ix.to_array()
+    lo, hi = min(vals + [common]), max(vals + [common])
+    want = expected_dtype(hi, min(lo, 0))
+    if out.dtype != want:
+        raise Violation("to_array() of values in [%d, %d] chose dtype %s, narrowest sufficient is %s"
+                        % (lo, hi, out.dtype, want), sig="to_array default dtype")
+    if out.astype(object).tolist() != dense.astype(object).tolist():
+        raise Violation("to_array() wrapped values around in dtype %s" % out.dtype, sig="to_array wrap-around")
+    rec.note("dense kind=" + want.name)
+    if lo < 0 < hi:
+        rec.nontrivial()
+
+
 SUBS = [
+    Sub("dense_output", check_dense, strategy=dense_cases, examples={"quick": 6000, "thorough": 300000},
+        shards={"quick": 4, "thorough": 16}),
     Sub("grid", check, enumerate=enum_grid, exhaustive=True,
         shards={"quick": 4, "thorough": 8}),
     Sub("interior", check, strategy=interior,
